@@ -30,7 +30,8 @@ RULE = ("active: lists of 0-4 positive/negated range()/cron() specifications (da
         "non-existent dates) x evaluation times = every resolved end point and end point +-1us, plus random times of a "
         "two-year window; handler: the same lists through TimeActiveDecorator.handle_dispatch on occurrence sequences with "
         "gaps around hold_off (incl. exact ties); ha: scripts of 6-8 functions (state / event / time triggers, optional "
-        "trigger expression, state_hold with window end points inside the hold, @state_active over watched / unwatched / missing entities and .old, @time_active windows "
+        "trigger expression, state_hold with window end points inside the hold, 40 % of the functions with further trigger decorators "
+        "of the same and of other types (two @state_trigger on different entities, two @event_trigger, state+event+time), @state_active over watched / unwatched / missing entities and .old, @time_active windows "
         "around the scenario times, hold_off, both decorator orders) driven by timed scenarios on the virtual clock under "
         "both subsystems, with direct calls interleaved.  Non-trivial: at least one specification or occurrence; distinct "
         "by payload.")
@@ -591,9 +592,17 @@ def gen_ha(rng, n_scen):
                 seq += 1
                 stim.append([t, "x", str(seq)])
                 last_trig = t
-            elif r < 0.66:
+            elif r < 0.58:
                 seq += 1
                 stim.append([t, "ev", seq])
+                last_trig = t
+            elif r < 0.62:
+                seq += 1
+                stim.append([t, "y", str(seq)])
+                last_trig = t
+            elif r < 0.66:
+                seq += 1
+                stim.append([t, "ev2", seq])
                 last_trig = t
             elif r < 0.78:
                 stim.append([t, "en", rng.choice(["0", "1"])])
@@ -627,6 +636,13 @@ def gen_ha(rng, n_scen):
                     pts = mids
             f["specs"] = (gen_window_near(rng, end, pts)) if f["ta"] else []
             f["hold"] = rng.choice(holds) if f["ta"] and not tick else None
+            if not tick and "shold" not in f and rng.random() < 0.4:
+                # several trigger decorators on one function: a second one of the same type (legacy: a second trigger task
+                # that must carry the same guards) and / or one of another type
+                own = {"state": "sx", "event": "e1", "time": "tm"}[trig]
+                same = {"sx": ["sy"], "e1": ["e2"], "tm": []}[own]
+                other = [m for m in ("sx", "sy", "e1", "e2") if m != own and m not in same]
+                f["more"] = (same if rng.random() < 0.8 else []) + rng.sample(other, rng.choice([0, 0, 1, 2]))
             funcs.append(f)
         scen = {"id": sc_i, "stim": stim, "funcs": funcs, "end": end, "tick": tick}
         for legacy in (True, False):
@@ -684,6 +700,21 @@ def corpus_cases():
         for fi in range(len(funcs)):
             out.append(Case({"kind": "ha", "legacy": legacy, "scen": scen, "fi": fi}, None,
                             tags=("ha", "corpus", "legacy" if legacy else "new", funcs[fi]["trig"])))
+    # several trigger decorators per function (legacy: one trigger task per k-th decorator of a type; every task must carry the
+    # guards - seeded change C07_3 dropped them from the second task; hold_off per task is the open finding C07-F5)
+    win = [rng_spec(False, (11, 0), (13, 0))]
+    funcs2 = [dict(fn("state", en_eq, False, [], None, True), more=["sy"]),            # guard false -> neither x nor y runs
+              dict(fn("event", None, True, twoneg, None, True), more=["e2", "sy"]),    # window excludes 12:00 for all three
+              dict(fn("state", en_eq, True, win, None, False), more=["sy", "e1", "e2"]),
+              dict(fn("state", None, True, [], 5, True), more=["sy"]),                 # C07-F5 witness
+              dict(fn("time", en_eq, False, [], None, True), more=["sx", "sy"], instants=[1.625, 6.125], startup=False)]
+    stim2 = [[0.5, "en", "0"], [1.0, "x", "1"], [2.0, "y", "2"], [2.5, "ev", 3], [3.0, "x", "4"], [3.5, "ev2", 5], [4.0, "en", "1"],
+             [5.0, "y", "6"], [5.5, "ev2", 7], [6.0, "direct", 8], [7.0, "y", "9"], [7.5, "x", "10"], [8.0, "ev", 11]]
+    scen2 = {"id": "corpus2", "stim": stim2, "funcs": funcs2, "end": 9.0}
+    for legacy in (True, False):
+        for fi in range(len(funcs2)):
+            out.append(Case({"kind": "ha", "legacy": legacy, "scen": scen2, "fi": fi}, None,
+                            tags=("ha", "corpus", "multi", "legacy" if legacy else "new", funcs2[fi]["trig"])))
     return out
 
 
@@ -768,12 +799,25 @@ def _run_direct(cases):
 
 
 # ---- ha scenarios
+def sources(f):
+    """the trigger decorators of a function in source order and the legacy trigger task each belongs to: trigger_init starts
+    one TrigInfo per k-th decorator of each type (the k-th @state_trigger, @event_trigger, ... share task k)"""
+    prim = {"state": "sx", "event": "e1", "time": "tm"}[f["trig"]]
+    out, cnt = {}, {}
+    for src in [prim] + list(f.get("more", [])):
+        typ = src[0]
+        out[src] = cnt.get(typ, 0)
+        cnt[typ] = out[src] + 1
+    return out
+
+
 def func_events(scen, fi):
     """the event list of function fi.  occurrence: t (s), id (run identifier), wall, ok (trigger condition), and for the
     @state_active expression: env (its variable dictionary is non-empty), sa (value on the triggering values), stale
     ((k, value) if the table still held the dictionary of occurrence number k)"""
     f = scen["funcs"][fi]
-    x_watched = any(g["trig"] == "state" for g in scen["funcs"])
+    x_watched = any("sx" in sources(g) for g in scen["funcs"])
+    src = sources(f)
     state, evs, dicts, last_x = {}, [], [], None
     timeline = [(s[0], 0, s) for s in scen["stim"]]
     if f["trig"] == "time":
@@ -781,8 +825,9 @@ def func_events(scen, fi):
     timeline.sort(key=lambda z: (z[0], z[1]))
     sa = SA_EXPRS[f["sa"]] if f["sa"] is not None else None
 
-    def occ(t, ident, wall, ok, new_vars):
-        e = {"t": t, "kind": "occ", "id": ident, "wall": wall, "ok": ok, "n": len(dicts) + 1, "env": True, "sa": "T", "stale": []}
+    def occ(t, ident, wall, ok, new_vars, g=0):
+        e = {"t": t, "kind": "occ", "id": ident, "wall": wall, "ok": ok, "n": len(dicts) + 1, "env": True, "sa": "T", "stale": [],
+             "g": g}
         if sa is not None:
             d = var_dict(sa[2], new_vars, state, last_x)
             e["env"] = bool(d)
@@ -819,17 +864,25 @@ def func_events(scen, fi):
             state["x"] = s[2]
             if x_watched:
                 last_x = s[2]
-            if f["trig"] == "state":
-                ok = (int(s[2]) % 3 != 0) if f["expr"] else True
+            if "sx" in src:
+                ok = (int(s[2]) % 3 != 0) if f["expr"] and f["trig"] == "state" else True
                 if not hold:
-                    occ(t, "x" + s[2], t, ok, {"pyscript.x": s[2], "pyscript.x.old": oldv})
+                    occ(t, "x" + s[2], t, ok, {"pyscript.x": s[2], "pyscript.x.old": oldv}, src["sx"])
                 elif not ok:
                     pending[0] = None
                 elif pending[0] is None:
                     pending[0] = [t, "x" + s[2], {"pyscript.x": s[2], "pyscript.x.old": oldv}]
+        elif what == "y":
+            oldy = state.get("y")
+            state["y"] = s[2]
+            if "sy" in src:
+                occ(t, "y" + s[2], t, True, {"pyscript.y": s[2], "pyscript.y.old": oldy}, src["sy"])
         elif what == "ev":
-            if f["trig"] == "event":
-                occ(t, "e" + str(s[2]), t, (s[2] % 3 != 0) if f["expr"] else True, {})
+            if "e1" in src:
+                occ(t, "e" + str(s[2]), t, (s[2] % 3 != 0) if f["expr"] and f["trig"] == "event" else True, {}, src["e1"])
+        elif what == "ev2":
+            if "e2" in src:
+                occ(t, "g" + str(s[2]), t, True, {}, src["e2"])
         elif what == "direct":
             evs.append({"t": t, "kind": "direct", "id": "d" + str(s[2])})
         elif what == "tick":
@@ -845,9 +898,9 @@ def script_for(scen):
              "        return 'd' + str(kw['seq'])",
              "    tt = kw.get('trigger_type')",
              "    if tt == 'state':",
-             "        return 'x' + str(kw.get('value'))",
+             "        return kw.get('var_name')[-1] + str(kw.get('value'))",
              "    if tt == 'event':",
-             "        return 'e' + str(kw.get('n'))",
+             "        return ('e' if kw.get('event_type') == 'ev' else 'g') + str(kw.get('n'))",
              "    t = kw.get('trigger_time')",
              "    if t == 'startup':",
              "        return 'startup'",
@@ -882,6 +935,10 @@ def script_for(scen):
             decs = decs[:1] + [trig] + decs[1:]
         else:
             decs = decs + [trig]
+        # further trigger decorators (same or other type), below everything else
+        more = {"sx": '@state_trigger("pyscript.x")', "sy": '@state_trigger("pyscript.y")', "e1": '@event_trigger("ev")',
+                "e2": '@event_trigger("ev2")'}
+        decs += [more[m] for m in f.get("more", [])]
         lines += decs + [f"def f{fi}(**kw):", f"    rec('run', {fi}, ident(kw))", ""]
     lines += ['@event_trigger("direct")', "def caller(seq=None, **kw):"]
     for fi in range(len(scen["funcs"])):
@@ -910,8 +967,8 @@ def _run_scenario(arg):
     async def body(env):
         for t, what, v in scen["stim"]:
             await _goto(env, t)
-            if what == "ev":
-                env.hass.bus.async_fire("ev", {"n": v})
+            if what in ("ev", "ev2"):
+                env.hass.bus.async_fire(what, {"n": v})
             elif what == "direct":
                 env.hass.bus.async_fire("direct", {"seq": v})
             else:
@@ -988,7 +1045,8 @@ def make_line(c):
             continue
         wall = us_of(BASE) + (0 if e["wall"] is None else int(round(e["wall"] * 1000000)))
         walls.add(dt_of(wall))
-        out.append(["occ", e["n"], int(round(e["t"] * 1000000)), wall, e["ok"], e["env"], e["sa"], e["stale"]])
+        ev = ["occ", e["n"], int(round(e["t"] * 1000000)), wall, e["ok"], e["env"], e["sa"], e["stale"]]
+        out.append(["g", e["g"], ev] if p["legacy"] and e.get("g") else ev)
         oev.append(dict(e, wallus=wall))
     specs = sx_specs(f["specs"], cron_ids)
     hold = "none" if f["hold"] is None else int(round(f["hold"] * 1000000))
@@ -1066,7 +1124,7 @@ def _py_run(p, flags, legacy):
             evs.append(e)
     if not has_ta:
         hold = None
-    last, tbl, out = None, 0, []
+    last, tbl, out, lasts = None, 0, [], {}
     for e in evs:
         if e["kind"] == "direct":
             out.append("1")
@@ -1095,6 +1153,8 @@ def _py_run(p, flags, legacy):
                 tbl = e["n"]
             return v
         if legacy:
+            if "groupHold" in flags:      # one last_trig_time per trigger task
+                last = lasts.get(e.get("g", 0))
             ok = True
             if has_sa:
                 ok = sa_seen() == "T"
@@ -1104,6 +1164,7 @@ def _py_run(p, flags, legacy):
                 ok = False
             if ok:
                 last = e["t"]
+                lasts[e.get("g", 0)] = last
             out.append("1" if ok else "0")
             continue
         order = (["sa"] if has_sa else []) + (["ta"] if has_ta else [])
@@ -1139,7 +1200,8 @@ def classify(c, reason):
         return "active:" + re.sub(r"\d+", "N", reason)[:60]
     legacy = p["kind"] == "ha" and p["legacy"]
     sub = "legacy" if legacy else "new"
-    names = ["staleLocals"] if legacy else OPEN_FLAGS + FIXED_FLAGS
+    # legacy: `groupHold` = hold_off kept per trigger task (open finding C07-F5)
+    names = ["groupHold", "staleLocals"] if legacy else OPEN_FLAGS + FIXED_FLAGS
     for k in range(1, len(names) + 1):
         for fl in itertools.combinations(names, k):
             if _py_run(p, set(fl), legacy) == c.impl:
@@ -1167,6 +1229,7 @@ def extra_coverage(cases):
     cov = {"streams": {}, "impl_outcomes": {}, "date_forms": {}, "time_forms": {}, "spec_kinds": {}, "boundary_hits": 0,
            "wrapping_ranges": 0, "subsystems": {}, "trigger_kinds": {}, "state_active_values": {}, "hold_off_exact_ties": 0,
            "direct_calls": 0, "decorator_orders": {}, "lean_spec_vs_python_oracle_mismatches": 0,
+           "functions_with_several_triggers": {}, "occurrences_of_a_second_trigger_task": 0,
            "state_hold_completions": 0, "state_hold_straddling_a_window_end": 0}
 
     def bump(d, k):
@@ -1208,6 +1271,9 @@ def extra_coverage(cases):
             bump(cov["subsystems"], "legacy" if p["legacy"] else "new")
             bump(cov["trigger_kinds"], f["trig"])
             bump(cov["decorator_orders"], "sa_first" if f["sa_first"] else "ta_first")
+            if f.get("more"):
+                bump(cov["functions_with_several_triggers"], "+".join(sorted(sources(f))))
+                cov["occurrences_of_a_second_trigger_task"] += sum(1 for e in func_events(p["scen"], p["fi"]) if e.get("g"))
             acc = None
             for e, fl in zip(func_events(p["scen"], p["fi"]), c.impl or ""):
                 if e["kind"] == "direct":
